@@ -26,11 +26,34 @@ def idsOf (e : Entry) : List Nat :=
 /-- State-machine content produced by a list of entries — a function of the entries only. -/
 def regularIds (es : List Entry) : List Nat := es.flatMap idsOf
 
-/-- The result handed to SUCCESS callbacks of entry `e` when the state machine held `sm` before it. -/
-def resOf (sm : List Nat) (e : Entry) : Res :=
+/-- The result handed to SUCCESS callbacks of entry `e` when the state machine held `sm` and the enabled code
+version was `ver` before it (D71: a VERSION entry below the enabled version yields the exception object). -/
+def resOf (sm : List Nat) (ver : Nat) (e : Entry) : Res :=
   match e.cmd with
   | .regular id raises => if raises then .raised id else .ok (sm.length + 1)
+  | .version v => if v < ver then .lowerVersion v else .none
   | _ => .none
+
+/-- The enabled code version after an applied entry: a VERSION entry not below it switches, everything else
+(a lower VERSION entry included, D71) leaves it. -/
+def verOf (ver : Nat) (e : Entry) : Nat :=
+  match e.cmd with
+  | .version v => max ver v
+  | _ => ver
+
+/-- the enabled version after a list of applied entries -/
+def verAfter (ver : Nat) (es : List Entry) : Nat := es.foldl verOf ver
+
+theorem verOf_ge (ver : Nat) (e : Entry) : ver ≤ verOf ver e := by
+  unfold verOf
+  split
+  · exact Nat.le_max_left _ _
+  · exact Nat.le_refl _
+
+theorem verAfter_ge (es : List Entry) : ∀ ver, ver ≤ verAfter ver es := by
+  induction es with
+  | nil => intro ver; exact Nat.le_refl _
+  | cons e es ih => intro ver; exact Nat.le_trans (verOf_ge ver e) (ih _)
 
 /-- The entries a batch actually applies: everything up to the first unsupported VERSION entry. -/
 def applicable (c : Config) (es : List Entry) : List Entry := es.takeWhile (supported c)
@@ -49,7 +72,9 @@ theorem applyCmd_none_iff (c : Config) (s : NodeState) (now : Nat) (e : Entry) :
   | membership a n => simp [applyCmd, supported]
   | version v =>
     simp only [applyCmd, supported]
-    split <;> simp <;> omega
+    split
+    · simp; omega
+    · split <;> simp <;> omega
 
 theorem changeCluster_keeps (s : NodeState) (now : Nat) (add : Bool) (n : Nat) :
     (changeCluster s now add n).1.sm = s.sm ∧ (changeCluster s now add n).1.waiting = s.waiting ∧
@@ -60,28 +85,37 @@ theorem changeCluster_keeps (s : NodeState) (now : Nat) (add : Bool) (n : Nat) :
 
 theorem applyCmd_some {c : Config} {s : NodeState} {now : Nat} {e : Entry} {s' : NodeState} {r : Res}
     {o : List Output} (h : applyCmd c s now e = some (s', r, o)) :
-    s'.sm = s.sm ++ idsOf e ∧ s'.waiting = s.waiting ∧ s'.lastApplied = s.lastApplied ∧ r = resOf s.sm e := by
+    s'.sm = s.sm ++ idsOf e ∧ s'.waiting = s.waiting ∧ s'.lastApplied = s.lastApplied ∧
+    r = resOf s.sm s.enabledVer e ∧ s'.enabledVer = verOf s.enabledVer e := by
   obtain ⟨cmd, idx, term⟩ := e
   cases cmd with
   | noop =>
     simp only [applyCmd, Option.some.injEq, Prod.mk.injEq] at h
     obtain ⟨rfl, rfl, _⟩ := h
-    simp [idsOf, resOf]
+    simp [idsOf, resOf, verOf]
   | regular id raises =>
     simp only [applyCmd, Option.some.injEq, Prod.mk.injEq] at h
     obtain ⟨rfl, rfl, _⟩ := h
-    simp [idsOf, resOf]
+    simp [idsOf, resOf, verOf]
   | version v =>
     simp only [applyCmd] at h
     split at h
     · cases h
-    · simp only [Option.some.injEq, Prod.mk.injEq] at h
-      obtain ⟨rfl, rfl, _⟩ := h
-      simp [idsOf, resOf]
+    · split at h
+      · next hlt =>
+        simp only [Option.some.injEq, Prod.mk.injEq] at h
+        obtain ⟨rfl, rfl, _⟩ := h
+        simp only [idsOf, resOf, verOf, List.append_nil, if_pos hlt, true_and]
+        omega
+      · next hge =>
+        simp only [Option.some.injEq, Prod.mk.injEq] at h
+        obtain ⟨rfl, rfl, _⟩ := h
+        simp only [idsOf, resOf, verOf, List.append_nil, if_neg hge, true_and]
+        omega
   | membership a n =>
     simp only [applyCmd, Option.some.injEq, Prod.mk.injEq] at h
     obtain ⟨rfl, rfl, _⟩ := h
-    simp [idsOf, resOf]
+    simp [idsOf, resOf, verOf]
 
 /-! ## progress and state-machine content -/
 
@@ -105,7 +139,7 @@ theorem applyLoop_applied_sm (c : Config) (now : Nat) (es : List Entry) :
         cases hs : supported c e
         · rw [(applyCmd_none_iff c _ now e).mpr hs] at h; cases h
         · rfl
-      obtain ⟨hsm, _, hla, _⟩ := applyCmd_some h
+      obtain ⟨hsm, _, hla, _, _⟩ := applyCmd_some h
       obtain ⟨ih1, ih2⟩ := ih { s1 with lastApplied := s1.lastApplied + 1 }
       simp only [applicable, List.takeWhile_cons, hsup, if_true, List.length_cons] at ih1 ih2 ⊢
       refine ⟨?_, ?_⟩
@@ -159,6 +193,50 @@ theorem applyEntries_sm (c : Config) (s : NodeState) (now : Nat) :
     · next h2 => rw [(applyLoop_applied_sm c now _ s).2]; simp [h, h2]
     · next h2 => simp [h2, regularIds]
 
+/-! ## the enabled code version -/
+
+/-- The loop leaves the enabled version at `verAfter` of the applied entries: it changes exactly at applied
+VERSION entries that are not below it (D71). -/
+theorem applyLoop_enabledVer (c : Config) (now : Nat) (es : List Entry) :
+    ∀ s : NodeState, (applyLoop c now es s).1.enabledVer = verAfter s.enabledVer (applicable c es) := by
+  induction es with
+  | nil => intro s; rfl
+  | cons e es ih =>
+    intro s
+    simp only [applyLoop]
+    split
+    · next h =>
+      have hs := (applyCmd_none_iff c _ now e).mp h
+      simp [applicable, List.takeWhile_cons, hs, verAfter]
+    · next s1 res o1 h =>
+      have hsup : supported c e = true := by
+        cases hs : supported c e
+        · rw [(applyCmd_none_iff c _ now e).mpr hs] at h; cases h
+        · rfl
+      obtain ⟨_, _, _, _, hver⟩ := applyCmd_some h
+      have := ih { s1 with lastApplied := s1.lastApplied + 1 }
+      simp only [applicable, List.takeWhile_cons, hsup, if_true] at this ⊢
+      rw [this]
+      show verAfter s1.enabledVer _ = verAfter s.enabledVer (e :: _)
+      rw [hver]
+      rfl
+
+/-- **enabledVer_mono** (loop): the enabled code version never decreases along `applyLoop`. -/
+theorem applyLoop_enabledVer_mono (c : Config) (now : Nat) (es : List Entry) (s : NodeState) :
+    s.enabledVer ≤ (applyLoop c now es s).1.enabledVer := by
+  rw [applyLoop_enabledVer]
+  exact verAfter_ge _ _
+
+/-- … along `__applyLogEntries` -/
+theorem applyEntries_enabledVer_mono (c : Config) (s : NodeState) (now : Nat) :
+    s.enabledVer ≤ (applyEntries c s now).1.enabledVer := by
+  unfold applyEntries
+  split
+  · exact Nat.le_refl _
+  · split
+    · exact applyLoop_enabledVer_mono c now _ s
+    · exact Nat.le_refl _
+
 /-! ## callbacks -/
 
 def isCallback : Output → Bool
@@ -168,12 +246,13 @@ def isCallback : Output → Bool
 /-- subscribers registered for index `j` (`self.__commandsWaitingCommit.get(j, [])`) -/
 def subsOf (w : List (Nat × List (Nat × Nat))) (j : Nat) : List (Nat × Nat) := (wget w j).getD []
 
-/-- The callbacks a batch must produce: a pure function of the waiting table, the state machine content
-before the batch and the applied entries.  Every subscriber `(term, cb)` of an applied index gets exactly one
-call: `(result, SUCCESS)` when its term is the entry's term, `(None, DISCARDED)` otherwise. -/
-def expectedCallbacks (w : List (Nat × List (Nat × Nat))) : List Nat → List Entry → List Output
-  | _, [] => []
-  | sm, e :: es => callbacksFor e (resOf sm e) (subsOf w e.idx) ++ expectedCallbacks w (sm ++ idsOf e) es
+/-- The callbacks a batch must produce: a pure function of the waiting table, the state machine content and the
+enabled code version before the batch, and the applied entries.  Every subscriber `(term, cb)` of an applied index
+gets exactly one call: `(result, SUCCESS)` when its term is the entry's term, `(None, DISCARDED)` otherwise. -/
+def expectedCallbacks (w : List (Nat × List (Nat × Nat))) : List Nat → Nat → List Entry → List Output
+  | _, _, [] => []
+  | sm, ver, e :: es =>
+    callbacksFor e (resOf sm ver e) (subsOf w e.idx) ++ expectedCallbacks w (sm ++ idsOf e) (verOf ver e) es
 
 theorem wget_wdel_ne (w : List (Nat × List (Nat × Nat))) (k j : Nat) (h : j ≠ k) : wget (wdel w k) j = wget w j := by
   unfold wdel
@@ -246,11 +325,12 @@ theorem subsOf_restore (w : List (Nat × List (Nat × Nat))) (k j : Nat) :
     · rw [wget_append_ne _ _ _ _ hj, wget_wdel_ne _ _ _ hj]
 
 theorem expectedCallbacks_congr (w w' : List (Nat × List (Nat × Nat))) (es : List Entry)
-    (h : ∀ e ∈ es, subsOf w' e.idx = subsOf w e.idx) : ∀ sm, expectedCallbacks w' sm es = expectedCallbacks w sm es := by
+    (h : ∀ e ∈ es, subsOf w' e.idx = subsOf w e.idx) :
+    ∀ sm ver, expectedCallbacks w' sm ver es = expectedCallbacks w sm ver es := by
   induction es with
-  | nil => intro sm; rfl
+  | nil => intro sm ver; rfl
   | cons e es ih =>
-    intro sm
+    intro sm ver
     simp only [expectedCallbacks]
     rw [h e (List.mem_cons_self ..), ih (fun e' he' => h e' (List.mem_cons_of_mem _ he'))]
 
@@ -275,7 +355,9 @@ theorem applyCmd_no_isCallback {c : Config} {s : NodeState} {now : Nat} {e : Ent
   · cases h; rfl
   · split at h
     · cases h
-    · cases h; rfl
+    · split at h
+      · cases h; rfl
+      · cases h; rfl
   · cases h; rfl
   · cases h; rfl
 
@@ -297,7 +379,7 @@ theorem applicable_subset (c : Config) (es : List Entry) : ∀ e ∈ applicable 
 later batch can call them again) and every other index keeps its subscribers. -/
 theorem applyLoop_callbacks (c : Config) (now : Nat) (es : List Entry) :
     ∀ s : NodeState, (es.map (·.idx)).Nodup →
-      (applyLoop c now es s).2.filter isCallback = expectedCallbacks s.waiting s.sm (applicable c es) ∧
+      (applyLoop c now es s).2.filter isCallback = expectedCallbacks s.waiting s.sm s.enabledVer (applicable c es) ∧
       (∀ e ∈ applicable c es, subsOf (applyLoop c now es s).1.waiting e.idx = []) ∧
       (∀ j, (∀ e ∈ applicable c es, e.idx ≠ j) → subsOf (applyLoop c now es s).1.waiting j = subsOf s.waiting j) := by
   induction es with
@@ -321,14 +403,15 @@ theorem applyLoop_callbacks (c : Config) (now : Nat) (es : List Entry) :
         cases hs : supported c e
         · rw [(applyCmd_none_iff c _ now e).mpr hs] at h; cases h
         · rfl
-      obtain ⟨hsm, hw, _, hres⟩ := applyCmd_some h
+      obtain ⟨hsm, hw, _, hres, hver⟩ := applyCmd_some h
       have happ : applicable c (e :: es) = e :: applicable c es := by
         simp [applicable, List.takeWhile_cons, hsup]
       have hw1 : ({ s1 with lastApplied := s1.lastApplied + 1 } : NodeState).waiting = wdel s.waiting e.idx := hw
       have hsm1 : ({ s1 with lastApplied := s1.lastApplied + 1 } : NodeState).sm = s.sm ++ idsOf e := hsm
-      generalize ({ s1 with lastApplied := s1.lastApplied + 1 } : NodeState) = s2 at hw1 hsm1 ⊢
+      have hver1 : ({ s1 with lastApplied := s1.lastApplied + 1 } : NodeState).enabledVer = verOf s.enabledVer e := hver
+      generalize ({ s1 with lastApplied := s1.lastApplied + 1 } : NodeState) = s2 at hw1 hsm1 hver1 ⊢
       obtain ⟨ih1, ih2, ih3⟩ := ih s2 hnd'
-      rw [hw1, hsm1] at ih1
+      rw [hw1, hsm1, hver1] at ih1
       rw [hw1] at ih3
       have hkeep : ∀ e' ∈ applicable c es, subsOf (wdel s.waiting e.idx) e'.idx = subsOf s.waiting e'.idx := by
         intro e' he'
@@ -339,7 +422,7 @@ theorem applyLoop_callbacks (c : Config) (now : Nat) (es : List Entry) :
       · simp only [List.filter_append, applyCmd_no_isCallback h, List.nil_append,
           filter_isCallback_callbacksFor, expectedCallbacks]
         rw [ih1, expectedCallbacks_congr _ _ _ hkeep]
-        have : res = resOf s.sm e := hres
+        have : res = resOf s.sm s.enabledVer e := hres
         rw [this]
         rfl
       · intro e' he'
@@ -371,7 +454,7 @@ theorem getEntries_nodup (log : List Entry) (hwf : LogWF log) (frm count : Nat) 
 theorem applyEntries_callbacks (c : Config) (s : NodeState) (now : Nat) (hwf : LogWF s.log)
     (hver : ¬ c.selfVer < s.enabledVer) (hlt : s.lastApplied < s.commit) :
     let es := getEntries s.log (s.lastApplied + 1) (s.commit - s.lastApplied)
-    (applyEntries c s now).2.1.filter isCallback = expectedCallbacks s.waiting s.sm (applicable c es) ∧
+    (applyEntries c s now).2.1.filter isCallback = expectedCallbacks s.waiting s.sm s.enabledVer (applicable c es) ∧
     (∀ e ∈ applicable c es, subsOf (applyEntries c s now).1.waiting e.idx = []) ∧
     (∀ j, (∀ e ∈ applicable c es, e.idx ≠ j) → subsOf (applyEntries c s now).1.waiting j = subsOf s.waiting j) := by
   intro es
@@ -421,13 +504,13 @@ theorem callCount_callbacksFor (e : Entry) (res : Res) (subs : List (Nat × Nat)
 called as many times as it is registered there — once, when callback ids are not registered twice — and
 subscribers of other indices are not called. -/
 theorem callCount_expected (w : List (Nat × List (Nat × Nat))) (idx cb : Nat) (es : List Entry) :
-    (es.map (·.idx)).Nodup → ∀ sm,
-      callCount idx cb (expectedCallbacks w sm es) =
+    (es.map (·.idx)).Nodup → ∀ sm ver,
+      callCount idx cb (expectedCallbacks w sm ver es) =
         if idx ∈ es.map (·.idx) then ((subsOf w idx).filter (fun p => decide (p.2 = cb))).length else 0 := by
   induction es with
-  | nil => intro _ sm; simp [expectedCallbacks, callCount]
+  | nil => intro _ sm ver; simp [expectedCallbacks, callCount]
   | cons e es ih =>
-    intro hnd sm
+    intro hnd sm ver
     have hnd' := (List.nodup_cons.mp hnd).2
     have hnot := (List.nodup_cons.mp hnd).1
     simp only [expectedCallbacks, callCount_append, callCount_callbacksFor, ih hnd', List.map_cons, List.mem_cons]
@@ -512,5 +595,17 @@ theorem callCount_filter (idx cb : Nat) (outs : List Output) :
   apply List.filter_congr
   intro o _
   cases o <;> simp [isCallback]
+
+@[simp] theorem readyPhase_enabledVer (s : NodeState) : (readyPhase s).1.enabledVer = s.enabledVer := by
+  rcases readyPhase_fst s with h | h <;> rw [h]
+
+/-- **enabledVer_mono**: the enabled code version never decreases along a whole `_onTick` (the election-timeout
+and leader branches leave it alone, the apply loop only raises it, `onReady` leaves it alone). -/
+theorem enabledVer_mono (c : Config) (s : NodeState) (now rand : Nat) :
+    s.enabledVer ≤ (tick c s now rand).1.enabledVer := by
+  rw [tick_fst, readyPhase_enabledVer]
+  have h := applyEntries_enabledVer_mono c (preApply c s now rand) now
+  rw [(preApply_keeps c s now rand).2.2.1] at h
+  exact h
 
 end PSO.NodeTick
